@@ -2,7 +2,6 @@
 # Run once after a fresh restore, offline: builds the driver (both profiles) from /repo and byte-compiles the engine.
 cd /verif || exit 1
 export CARGO_NET_OFFLINE=true
-cp /repo/Cargo.lock driver/Cargo.lock 2>/dev/null
 ./tools/build.sh || exit 1
 python3-vt -m compileall -q pbt >/dev/null 2>&1
 echo "setup ok"
